@@ -729,7 +729,7 @@ type muxResult struct {
 
 func runMuxCase(c *checkCtx, cs muxCase) (res muxResult) {
 	lay := muxLayouts[cs.Layout]
-	p, err := newSessionPair(pairOpt{memfd: cs.Memfd, queueCap: cs.QueueCap, bufCap: lay.bufCap, sizes: smallSizes(lay.sizes...)})
+	p, err := newSessionPair(pairOpt{memfd: cs.Memfd, queueCap: cs.QueueCap, bufCap: lay.bufCap, sizes: smallSizes(lay.sizes...), initTO: 60 * time.Second})
 	if err != nil {
 		res.discarded = "session pair: " + err.Error()
 		return
